@@ -52,11 +52,22 @@ type c13Macro struct {
 
 var holeRe = regexp.MustCompile(`\bhole([0-9])\b`)
 
+// ulitRe: ulit3 / ulittrue in a template stand for unquote(3) / unquote(true) in the macro and for the literal by hand.
+var ulitRe = regexp.MustCompile(`\bulit(3|true|false|25)\b`)
+
+func ulitText(m string) string {
+	if m == "ulit25" {
+		return "2.5"
+	}
+	return strings.TrimPrefix(m, "ulit")
+}
+
 func (m c13Macro) def() string {
 	body := holeRe.ReplaceAllStringFunc(m.tmpl, func(h string) string {
 		i := int(h[4] - '0')
 		return "unquote(" + m.params[i] + ")"
 	})
+	body = ulitRe.ReplaceAllStringFunc(body, func(u string) string { return "unquote(" + ulitText(u) + ")" })
 	return fmt.Sprintf("%s = macro(%s) {quote(%s)}", m.name, strings.Join(m.params, ", "), body)
 }
 
@@ -65,6 +76,7 @@ func (m c13Macro) subst(args []string) string {
 		i := int(h[4] - '0')
 		return "(" + args[i] + ")"
 	})
+	body = ulitRe.ReplaceAllStringFunc(body, func(u string) string { return "(" + ulitText(u) + ")" })
 	return "(" + body + ")"
 }
 
@@ -89,7 +101,12 @@ func genTemplate(c *fw.Ctx, k int) string {
 	g.DeclareRO("a", gt.TInt)
 	g.DeclareRO("b", gt.TInt)
 	var n *gt.Node
-	switch c.Rng.IntN(11) {
+	switch c.Rng.IntN(12) {
+	case 11: // literals spliced with unquote besides the parameters
+		if k > 0 {
+			return []string{"hole0 + ulit3", "if ulittrue {hole0} else {ulit3}", "[ulit3, ulit25, hole0][ulit3 - 3]", "ulitfalse || hole0 == ulit3"}[c.Rng.IntN(4)]
+		}
+		n = g.Expr(gt.TInt, 2)
 	case 8, 9, 10: // a hole in one given child slot
 		if k > 0 {
 			ctx := c13Contexts[c.Rng.IntN(len(c13Contexts))]
